@@ -540,7 +540,7 @@ fn judge_through_assembler(e: &E, l: &mut Local) {
 // ---- blocks whose expressions are separated by line breaks --------------------------------------------------
 
 /// one line of a block: an expression over the block-local `t` (None: the line is the assignment `t = 2`)
-const BLOCK_LINES: &[&str] = &["1 + 2", "-3", "4 - 1", "!0x0f", "2 * 3", "(5)", "t = 2", "t", "-t", "t + 1", "+4", "4 -1"];
+const BLOCK_LINES: &[&str] = &["1 + 2", "-3", "4 - 1", "!0x0f", "2 * 3", "(5)", "t = 2", "t", "-t", "t + 1", "+4", "4 -1", "t = 1 > 0 ? 7 : 9", "t = 2 - 1 - 1"];
 const BLOCK_SEPS: &[&str] = &["\n", ", ", ",\n", " \n "];
 
 /// A line break ends an expression exactly like a comma does: the block's value is the value of its last line, each
@@ -550,8 +550,19 @@ fn judge_block_lines(seq: &[usize], sep: usize, wrap: usize, l: &mut Local) {
     let mut last: Result<Option<Z>, ()> = Ok(None);
     for i in seq {
         let line = BLOCK_LINES[*i];
-        if line == "t = 2" {
-            t = Some(Z::from(2));
+        if let Some(rhs) = line.strip_prefix("t = ") {
+            // the assigned value is the whole expression to the right of `=` (a conditional included)
+            let mut env = Env::new();
+            if let Some(tv) = &t {
+                env.set("t", RVal::Int(tv.clone(), None));
+            }
+            match crate::refparse::parse_all(rhs).ok().map(|tree| eval(&tree, &env)) {
+                Some(Ok(RVal::Int(z, _))) => t = Some(z),
+                _ => {
+                    l.unspecified += 1;
+                    return;
+                }
+            }
             // the value of an assignment itself is not stated: a block ending in one gets no verdict
             last = last.map(|_| None);
             continue;
